@@ -117,8 +117,20 @@ class Flows:
             if key in tab:
                 self.by_conn[c["id"]] = (tab[key], cep, sep)
                 used.add(key)
+        # -a exports the (unprotected) content of QUIC Version Negotiation packets on purpose, no keys needed: a flow
+        # between the hosts of an unrelated UDP exchange that contains such a packet is not a foreign flow
+        vn_hosts = set()
+        if spec.get("cli", {}).get("a"):
+            for c in spec["conns"]:
+                if c["proto"] == "udp" and any(len(b) >= 10 and int(b[:2], 16) & 0xC0 == 0xC0 and b[2:10] == "00000000"
+                                               for _, b in c["dgrams"]):
+                    vn_hosts.add(frozenset([bytes.fromhex(c["c"]["ip"]), bytes.fromhex(c["s"]["ip"])]))
+        self.version_negotiation_flows = []
         for k in list(self.tcp) + list(self.udp):
             if k not in used:
+                if k[0] == 17 and frozenset(e[0] for e in k[2]) in vn_hosts:
+                    self.version_negotiation_flows.append(k)
+                    continue
                 self.extra.append(k)
 
     def tcp_streams(self, cid):
